@@ -79,8 +79,11 @@ class Jacobian(_Common):
         options = dict(method=method, rel_step=self.step, args=args,
                        kwargs=kwds, bounds=self.bounds, sparsity=self.sparsity)
 
-        grad = approx_derivative(self.fun, x, **options)
-
+        f_0 = np.asarray(self.fun(x, *args, **kwds))
+        grad = approx_derivative(self.fun, x, f0=f_0, **options)
+        if f_0.ndim == 1:
+            # approx_derivative squeezes the Jacobian of a length-1 vector function to 1-d
+            grad = np.atleast_2d(grad)
         return grad
 
 
